@@ -67,6 +67,8 @@ type FuncSpec struct {
 	InferAll bool
 	Opaque   bool // never inline, no contract: result arbitrary (explicit)
 	Lockset  bool
+	Trusted  bool // bluge function whose contract is assumed at call sites; body not verified (listed)
+	Iface    bool // contract of an interface method of bluge: assumed at invoke sites
 	Decreases *Clause
 }
 
@@ -310,6 +312,10 @@ func (sp *Specs) ParseSpecLines(file string, raw []string, pkgPath string, ext b
 			curF.Inline = true
 		case "opaque":
 			curF.Opaque = true
+		case "trusted":
+			curF.Trusted = true
+		case "interface":
+			curF.Iface = true
 		case "pure":
 			curF.Pure = true
 		case "fresh":
